@@ -149,6 +149,42 @@ def env_reads():
         return []
 
 
+def build_race():
+    """implrun with the race detector on (built from /repo's working tree, hooks on); returns (ok, log)"""
+    with Lock():
+        hdir = os.path.join(ROOT, "harness")
+        rc, out = sh(["go", "build", "-race", "-tags", "verif", "-o", os.path.join(BUILD, "implrun_race"), "."], cwd=hdir, env=GOENV, timeout=1800)
+    return rc == 0, out
+
+
+def run_race(progs, timeout=180):
+    """progs: list of programs; a program is a list of goroutines; a goroutine is a list of op lines.
+    Each program runs in its own fresh process (cold package).  Returns (per-goroutine result lists, race report or None, rc)."""
+    import tempfile, concurrent.futures
+    def one(prog):
+        fd, path = tempfile.mkstemp(prefix="race-", suffix=".txt", dir=BUILD)
+        with os.fdopen(fd, "w") as f:
+            for g in prog:
+                f.write("|".join(g) + "\n")
+        try:
+            p = subprocess.run([os.path.join(BUILD, "implrun_race"), "race", path], env=dict(GOENV, GORACE="halt_on_error=0"),
+                               stdout=subprocess.PIPE, stderr=subprocess.PIPE, text=True, timeout=timeout)
+            rc, out, err = p.returncode, p.stdout, p.stderr
+        except subprocess.TimeoutExpired:
+            rc, out, err = -9, "", "timeout"
+        finally:
+            os.remove(path)
+        rows = [l.split(" | ") for l in out.split("\n") if l != ""]
+        race = None
+        if "DATA RACE" in err:
+            race = err[err.index("WARNING: DATA RACE"):][:3000]
+        elif rc not in (0,) and err.strip():
+            race = None
+        return rows, race, rc, err[-1500:]
+    with concurrent.futures.ThreadPoolExecutor(max_workers=8) as ex:
+        return list(ex.map(one, progs))
+
+
 def vo_up_to_date(rel):
     """True iff coq/<rel>.vo exists and make considers it up to date."""
     rc, _ = sh(["make", "-q", rel + "o"], cwd=COQ)
